@@ -13,7 +13,7 @@ sys.path.insert(0, os.path.dirname(os.path.dirname(os.path.abspath(__file__))))
 from translate import kernels  # noqa: E402
 
 CLAIM = {
-    "text": "PROVED (21 theorems): every numpy/numba kernel pair - liquid and gas momentum kernels, steady-state thermal kernel, "
+    "text": "PROVED (22 theorems): every numpy/numba kernel pair - liquid and gas momentum kernels, steady-state thermal kernel, "
             "friction factor, mean pressure, derived values, gas result post-processing - is regenerated from the current source "
             "as a real function and proved equal output by output for ALL inputs, mask thresholds included; the two places where "
             "the twins differ are stated exactly with a refuting witness (gas df_dm at |m|<=1e-8; thermal to-node terms at "
